@@ -16,6 +16,7 @@ class Sb:
         self.steps = []
         self.n = 0
         self.tags = set()
+        self.listeners = None
 
     def P(self, name):
         return next(p for p in self.peers if p["name"] == name)
@@ -92,7 +93,7 @@ class Sb:
         return self
 
     def build(self):
-        s = script(self.sid, self.peers, self.steps, self.routerID)
+        s = script(self.sid, self.peers, self.steps, self.routerID, self.listeners)
         s["tags"] = sorted(self.tags)
         return s
 
@@ -1420,4 +1421,114 @@ def trailing():
                     b.open(c2, "p2", rid="10.0.0.3").ka(c2).upd(c2)
                     b.close()
                     out.append(b.tag("fuzz", "trail").build())
+    return out
+
+
+def damping_matrix():
+    """C12: every way a non-Cease NOTIFICATION can be sent or received x every state x direction, each followed
+    by hold-down probes; and the same places with Cease / transport faults (must not damp)."""
+    out = []
+    hdrfaults = {"notsync": [0] * 19, "badlen": [0xFF] * 16 + [0, 18, 4], "badtype": frame(7, [])}
+    for st in STATES:
+        kinds = {"rx3": None, "rx5": None, "rxcease": None, "eof": None, "reset": None}
+        kinds.update({"hdr-" + k: v for k, v in hdrfaults.items()})
+        kinds["shortopen"] = frame(1, [4, 0, 1])
+        kinds["badopenparams"] = frame(1, open_body(65002, 90, ip4("10.0.0.2"), params=[1, 0]))
+        if st == "openSent":
+            kinds.update({"badopen-hold": None, "badopen-as": None, "veto": None, "vetocease": None, "unexp-ka": keepalive(),
+                          "unexp-upd": update([])})
+        elif st == "openConfirm":
+            kinds.update({"unexp-upd": update([]), "unexp-open": open_msg(65002, 90, ip4("10.0.0.2")), "holdexp": None})
+        else:
+            kinds.update({"unexp-open": open_msg(65002, 90, ip4("10.0.0.2")), "handler": None, "handlercease": None,
+                          "holdexp": None})
+        for kn, raw in kinds.items():
+            for d in DIRS:
+                kw = {}
+                if kn == "veto":
+                    kw["openReply"] = {"code": 2, "sub": 7, "data": [9]}
+                if kn == "vetocease":
+                    kw["openReply"] = {"code": 6, "sub": 0, "data": []}
+                if kn == "handler":
+                    kw["handlerReplies"] = {"1": {"code": 3, "sub": 4, "data": [1]}}
+                if kn == "handlercease":
+                    kw["handlerReplies"] = {"1": {"code": 6, "sub": 0, "data": []}}
+                b = Sb("dampm-%s-%s-%s" % (st, kn, d), [peer(hold=9, **kw)])
+                b.start()
+                c = b.to_state(st, direction=d, hold=9)
+                if raw is not None:
+                    b.send(c, raw)
+                elif kn.startswith("rx"):
+                    b.notif(c, 6 if kn == "rxcease" else int(kn[2:]), 0, [1] if kn == "rx5" else [])
+                elif kn == "eof":
+                    b.rclose(c)
+                elif kn == "reset":
+                    b.rreset(c)
+                elif kn == "badopen-hold":
+                    b.open(c, hold=2)
+                elif kn == "badopen-as":
+                    b.send(c, open_msg(65002, 90, ip4("10.0.0.2"), as2=64000))
+                elif kn in ("veto", "vetocease"):
+                    b.open(c)
+                elif kn in ("handler", "handlercease"):
+                    b.upd(c, [7])
+                elif kn == "holdexp":
+                    b.adv(9)
+                # hold-down probes: inbound attempt at once, just before and at 60 s
+                b.connect()
+                b.advu(sec(60) - 1 - (sec(9) if kn == "holdexp" else 0))
+                b.connect()
+                b.advu(1)
+                c3 = b.connect()
+                b.open(c3, hold=9).ka(c3).adv(1)
+                out.append(b.tag("damp" if "cease" not in kn and kn not in ("eof", "reset") else "nodamp", "matrix").build())
+    return out
+
+
+def inbound_drop():
+    """C11/C13: an inbound connection that goes away in each state (incl. before the remote's OPEN), for
+    passive and active peers: a passive peer never dials, the inbound slot is free again."""
+    out = []
+    for passive in (True, False):
+        for st in ("accepted",) + STATES:
+            for how in ("eof", "reset", "cease"):
+                if how == "cease" and st == "accepted":
+                    continue
+                b = Sb("indrop-%s-%s-%s" % ("pas" if passive else "act", st, how), [peer(passive=passive, connRetry=sec(3))])
+                b.start()
+                c = b.to_state("openSent" if st == "accepted" else st, direction="in")
+                if how == "eof":
+                    b.rclose(c)
+                elif how == "reset":
+                    b.rreset(c)
+                else:
+                    b.notif(c, 6, 0)
+                b.advu(sec(3) - 1).advu(1).adv(6)
+                c2 = b.connect()
+                b.open(c2).ka(c2).adv(1)
+                out.append(b.tag("pace", "passive" if passive else "active", "indrop").build())
+    return out
+
+
+def multi_listener():
+    """C13: several listeners (wildcard and bound to specific addresses, in every order); the destination
+    that counts is the connection's own, whichever listener accepted it."""
+    out = []
+    import itertools as it
+    sets = [["0.0.0.0:179", "10.0.0.1:179"], ["10.0.0.1:179", "0.0.0.0:179"], ["10.0.0.77:179", "10.0.0.1:179"],
+            ["10.0.0.1:179", "10.0.0.77:179"], ["[::]:179", "10.0.0.1:179", "[2001:db8::1]:179"], ["10.0.0.1:179"]]
+    for si, ls in enumerate(sets):
+        for li in range(len(ls)):
+            for dst in ("10.0.0.1:179", "10.0.0.77:179"):
+                for withlocal in (True, False):
+                    ps = [peer("pa", "10.0.0.2", localAddr="10.0.0.1" if withlocal else ""),
+                          peer("pb", "10.0.0.3", remoteAS=65003, passive=True)]
+                    b = Sb("mlis-%d-%d-%s-%s" % (si, li, dst.split(":")[0], "la" if withlocal else "nola"), ps)
+                    b.listeners = ls
+                    b.start()
+                    c0 = b.establish("pb", "in")
+                    c = b.newconn()
+                    b.add("connect", conn=c, src="10.0.0.2:41000", dst=dst, lis=li)
+                    b.open(c, "pa").ka(c).upd(c0).adv(1)
+                    out.append(b.tag("adm", "mlis").build())
     return out
